@@ -152,7 +152,7 @@ Proof.
 Qed.
 
 (* ---------------------------------------------------------------- minimum Feret diameter, end to end *)
-From Centro Require Import Proofs.FeretMinC13 Proofs.FeretConeC13 Proofs.HullAreaVecC13Proofs Model.HullAreaC13 Model.HullAreaVecC13.
+From Centro Require Import Spec.FeretLower Proofs.FeretMinC13 Proofs.FeretConeC13 Proofs.HullAreaVecC13Proofs Model.HullAreaC13 Model.HullAreaVecC13.
 
 (* the minimum returned by the sweep on the label's hull is - cross-multiplied - a squared width that the label's
    own pixel set S attains in a direction normal to a hull edge, and no strip normal to a hull edge that contains S
@@ -212,6 +212,24 @@ Proof.
   destruct (feret_end_to_end ijv indexes r ND Hr Hnn) as [HS [mx [mq (E & _ & Small & _)]]]. fold l S V in HS, Small.
   rewrite (Small ltac:(lia)) in E. exists mx. split; [exact E|]. exact (feret_min_degenerate S V HS LV).
 Qed.
+
+(* a pixel line next to another object: two hull vertices *)
+Example feret_min_degenerate_example :
+  let ijv := [((4, 1), 3); ((4, 2), 3); ((4, 3), 3); ((0, 0), 5); ((5, 2), 5)] in
+  NoDup [3; 5] /\ nonneg_rows ijv /\ (1 <= length (own_hull ijv 3) <= 2)%nat /\
+  nth 0 (feret_rows (fst (convex_hull_ijv ijv [3; 5]))) (sweep []) = Some (4, (0, 1)).
+Proof.
+  cbv zeta. split; [repeat constructor; cbn; intuition discriminate|].
+  split; [intros x Hx; cbn in Hx; intuition (subst; cbn; lia)|].
+  split; [vm_compute; lia|]. vm_compute. reflexivity.
+Qed.
+
+(* the hypotheses of the planar cone lemma (FeretConeC13.cone_span) *)
+Example cone_span_example :
+  let c1 := (1, 0) in let c2 := (0, 1) in let c3 := (1, 1) in let c4 := (2, -1) in let u := (3, 2) in
+  FeretLower.crossv c1 c2 <> 0 /\ u <> (0, 0) /\ 0 <= FeretLower.dotv c1 u /\ 0 <= FeretLower.dotv c2 u /\
+  0 <= FeretLower.dotv c3 u /\ 0 <= FeretLower.dotv c4 u.
+Proof. cbv. repeat split; try discriminate. Qed.
 
 (* the hypotheses on a 3 x 2 block next to another object: the hull is the four corners, the minimum squared width
    is 1 = 4 / 4 (the short side), attained normal to a long edge *)
